@@ -131,8 +131,8 @@ def _fn(name: str, d: int) -> Any:
         "double": lambda x: 2 * x,
         "tanh": torch.tanh,
         "square": lambda x: x * x,
-        "linear": lambda x: x @ W,
-        "tanh_linear": lambda x: torch.tanh(x @ W),
+        "linear": lambda x: x @ W.to(x.dtype),  # kids of a float32 branch stay in float32
+        "tanh_linear": lambda x: torch.tanh(x @ W.to(x.dtype)),
         "u_gelu": lambda x: U.gelu(x),
         "zero": lambda x: x * 0.0,
         "inplace_double": lambda x: x.mul_(2.0),  # a branch that starts with an in-place op on its argument
